@@ -723,6 +723,7 @@ func (a *A) finish(p *Prop, verifDir string, seed int64, start time.Time, extraI
 		"assumptions": append([]string{
 			"go/types and go/ssa (x/tools) faithfully represent the compiled program; build tags: default set",
 			"verdicts concern the named structural clauses only, not the behaviour as a whole",
+			"functions that are not in sa/inventory.txt are inlined at their same-package call sites before the analysis (x/tools inliner + literal flattening, re-type-checked at every step): the normalised program is assumed to behave like the one on disk; what was inlined is listed under coverage.helper_normalisation",
 		}, p.Assumptions...),
 		"wall_s":     time.Since(start).Seconds(),
 		"violations": viol,
